@@ -9,6 +9,7 @@
   needed for one reason only: the length field of the re-encoding has 32 bits.
 -/
 import KmipModel.Lemmas.FixpointLemmas
+import KmipModel.Props.C18Typed
 namespace Kmip.C18
 open Kmip
 
